@@ -37,7 +37,7 @@ fn view(vi: usize, n: usize, rng: &mut Rng) -> V {
             (Spec::leaf(k), Some(k), None)
         }
         1 => {
-            let k = Kind::LagFilter(*rng.pick(&[0.0, 0.25, 0.5, 0.75, 0.8125, 0.9375]));
+            let k = Kind::LagFilter(*rng.pick(&[0.0, 0.25, 0.5, 0.75, 0.8125, 0.9375, 0.998046875]));
             (Spec::leaf(k), Some(k), None)
         }
         2 => (Spec::leaf(Kind::SuperSmoother(n)), Some(Kind::SuperSmoother(n)), None),
